@@ -37,10 +37,24 @@ by an explicit stack (a local work-list that is drained before the function succ
 the same path classes as the recursive spelling — by the work-list's drain theorem and its inductive element invariant,
 both checked on the facts — and private helpers / constructors that only compute paths are transparent wherever they
 occur in a path value (inline_deep normal form).
+
+Round 4 (each stated on a normal form, see the section comments of C01_helpers):
+  * "the value read from this layer's TOML" (R4 base, R1 types-preserved, lossless re-read) is the success payload
+    `toml::from_str(read_to_string(P))` after inlining, whichever function spells it out (toml_source); the type it is read as
+    is the payload type where the value enters the function that uses it.
+  * a success site of the reader may be the last combinator of a chain (`parse(..).map_err(E).map(|m| Some(..))`): its
+    None / Some kind is read from the chain's success payload.
+  * a callback decision handed on as a private enum and matched in another function ("plan, then execute") is the same
+    decision (refine_outcomes): contradicted arms are no outcomes, a match on a table over the callback's answer is a
+    decision on that answer; "must happen after the decision" is checked from the place of the match, "must not happen
+    after the decision" from the return of the callback on (Outcome2.region_wide).
+  * a loop over a local Vec / VecDeque that was filled in place (push / extend / pushes in an exhaustive loop, also on top of
+    a `vec![..]` literal) runs its body for exactly those elements (built_alts); a collection that is also modified in a way
+    that is not followed is opaque — no MUST effect, an unknown element for MAY — and the rows depending on it are UNPROVEN.
 """
 from .lib.effects import Effects, MUTATING, REMOVING
-from .C01_helpers import outcomes2, norm, frame_of, Effects2, WorklistPaths
-from .C01_helpers import readers_of, gated_by_none, reader_contexts, reader_report, lossless_read, nested_follow_stats
+from .C01_helpers import outcomes2, refine_outcomes, norm, frame_of, Effects2, WorklistPaths, UNKNOWN_ELEM
+from .C01_helpers import readers_of, gated_by_none, reader_contexts, reader_report, nested_follow_stats, toml_source, lossless_type
 from .lib.paths import LayerPaths, cls_str, strip, sbom_formats_covered
 from .lib.value import vstr, walk
 
@@ -168,6 +182,9 @@ def run(ctx, rep):
     # (outcomes2: case split on every such helper the returned value or the dominating decisions depend on, so the rows
     # below are the same whether the handler is one function or one function per case)
     outs = outcomes2(E, cl, lambda g: g.crate == 'libcnb' and g.path.startswith(hmod + '::') and g.kind != 'Closure')
+    # a callback decision handed on as a value of a private enum and matched elsewhere ("plan, then execute") is the same
+    # decision: contradicted arms are dropped, the match on the private enum becomes a decision on the callback's answer
+    outs = refine_outcomes(prog, sl, outs)
     rows = {}
     for o in outs:
         r, dec = row_of(o)
@@ -266,11 +283,23 @@ def run(ctx, rep):
             elif r in ('restored-delete', 'invalid-delete'):
                 c, subj, lv = dec
                 after = o.region(c, lv, must)
+                # removals driven by a local collection whose content cannot be read (elements added in place, then modified
+                # in a way that is not followed): what is removed is undecided, not absent
+                opaque_rm = [e for e in o.region(c, lv, o.may) if e.kind in REMOVING and e.path is not None
+                             and any(x == UNKNOWN_ELEM for x in walk(e.path))]
+
+                def check_rm(ok, rule, subject, wh, ok_msg, bad_msg, detail=None):
+                    if not ok and opaque_rm:
+                        rep.unproven(rule, subject, wh, bad_msg + ' — but %s removes the elements of a collection whose content cannot be read' % opaque_rm[0].via())
+                    elif detail is not None:
+                        rep.check(ok, rule, subject, wh, ok_msg, bad_msg, detail)
+                    else:
+                        rep.check(ok, rule, subject, wh, ok_msg, bad_msg)
                 rm_dir = has(after, {'REMOVE_DIR', 'REMOVE_TREE', 'REMOVE_FILE'}, is_dir)
                 rm_toml = has(after, {'REMOVE_FILE'}, is_toml)
                 mk = has(after, {'MKDIR'}, is_dir)
                 wr = has(after, {'WRITE'}, is_toml)
-                rep.check(bool(rm_dir) and bool(rm_toml), 'R3', tag + '/must-remove', site_where,
+                check_rm(bool(rm_dir) and bool(rm_toml), 'R3', tag + '/must-remove', site_where,
                           'layer dir and TOML are removed after the delete decision',
                           'delete decision without removing DIR and TOML: %s' % summary['must'])
                 rep.check(bool(mk) and bool(wr), 'R3', tag + '/must-create', site_where, 'MKDIR(DIR), WRITE(TOML) follow',
@@ -287,13 +316,13 @@ def run(ctx, rep):
                 got = sorted(sbom_formats_covered(rm_sbom, lambda pv: LP.classify(pv) if pv is not None else None))
                 covered = got == all_variants
                 detail = ('REMOVE_FILE on <layer>.sbom.* for formats %s' % got) if rm_sbom else 'no REMOVE_FILE on <layer>.sbom.* after the decision'
-                rep.check(covered, 'R5', tag + '/SBOM', site_where, 'SBOM files removed for all formats (%s)' % detail,
-                          'a layer reported empty keeps the SBOM files of the previous build: %s' % detail,
-                          {'row': r, 'must': summary['must']})
+                check_rm(covered, 'R5', tag + '/SBOM', site_where, 'SBOM files removed for all formats (%s)' % detail,
+                         'a layer reported empty keeps the SBOM files of the previous build: %s' % detail,
+                         {'row': r, 'must': summary['must']})
                 for cname, ok in (('DIR (incl. env*, exec.d, files)', bool(rm_dir)), ('TOML', bool(rm_toml))):
-                    rep.check(ok, 'R5', tag + '/' + cname.split(' ')[0], site_where, cname + ' removed', cname + ' not removed')
+                    check_rm(ok, 'R5', tag + '/' + cname.split(' ')[0], site_where, cname + ' removed', cname + ' not removed')
                 # R8: tolerated errors of the removal must not be able to come from entries below the layer directory
-                nfs = nested_follow_stats(prog, sl, o.region(c, lv, o.may), klass, E)
+                nfs = nested_follow_stats(prog, sl, o.region_wide(c, lv, o.may), klass, E)
                 for e, verdict, msg in nfs:
                     (rep.violated if verdict == 'violated' else rep.unproven)('R8', tag + '/nested-follow-stat', e.where(), msg)
                 if not nfs:
@@ -303,7 +332,7 @@ def run(ctx, rep):
                 c, subj, lv = dec
                 rep.check(bool(has(o.region(c, lv, must), {'WRITE'}, is_toml)), 'R3', tag + '/must', site_where,
                           'types are rewritten (WRITE(TOML)) on every keep path', 'keep path does not rewrite the layer types')
-                reg = o.region(c, lv, o.may)
+                reg = o.region_wide(c, lv, o.may)
                 bad = [e for e in reg if e.kind in MUTATING and not (e.kind == 'WRITE' and is_toml(klass(e)))]
                 rep.check(not bad, 'R3', tag + '/must-not', site_where, 'nothing but the TOML is written after a keep decision',
                           'keep path mutates more than the TOML: %s' % [(e.kind, cls_str(klass(e)), e.via()) for e in bad[:3]])
@@ -312,7 +341,7 @@ def run(ctx, rep):
                 reg_must = o.region(c, lv, must)
                 rep.check(bool(has(reg_must, {'WRITE'}, is_toml)), 'R3', tag + '/must', site_where, 'metadata rewritten (WRITE(TOML))',
                           'ReplaceMetadata does not write the TOML')
-                reg = [e for e in o.region(c, lv, o.may) if e.kind in REMOVING or e.kind in ('MKDIR', 'CHMOD')]
+                reg = [e for e in o.region_wide(c, lv, o.may) if e.kind in REMOVING or e.kind in ('MKDIR', 'CHMOD')]
                 rep.check(not reg, 'R3', tag + '/must-not', site_where, 'no removal before re-dispatch',
                           'ReplaceMetadata path removes/creates entries: %s' % [(e.kind, e.via()) for e in reg[:3]])
             # ---- R1 / R4: data written to the TOML ---------------------------------------------------
@@ -335,13 +364,15 @@ def run(ctx, rep):
                         rep.unproven('R4', tag + '/keep-frame', e.where(), 'keep rewrite is not a read-modify-write: ' + vstr(data)[:160])
                         continue
                     base, repl = fr
-                    same_file = base[0] == 'call' and base[1].endswith('read_toml_file') and LP.classify(base[2][0]) == ('TOML',)
+                    # the base is "the parsed contents of this layer's TOML" in normal form — whichever function reads it
+                    src = toml_source(prog, sl, base)
+                    same_file = src is not None and LP.classify(src[0]) == ('TOML',)
                     fields = sorted(repl)
                     rep.check(same_file and fields == ['.types'], 'R4', tag + '/keep-frame', e.where(),
                               'serialises the value read from the same TOML with only .types replaced',
                               'keep rewrite is not frame-preserving: base=%s updated=%s' % (vstr(base)[:100], fields))
                     if same_file:
-                        ll, why = lossless_read(prog, base)
+                        ll, why = lossless_type(src[1])
                         if ll is None:
                             rep.unproven('R4', tag + '/lossless', e.where(), 'cannot tell whether the keep path re-reads the metadata without loss: ' + why)
                         else:
@@ -353,8 +384,8 @@ def run(ctx, rep):
                     f = dict(lcm[3])
                     if r == 'invalid-replace':
                         tv = strip(f.get('types', ('unknown',)))
-                        good = tv[0] == 'field' and tv[2] == 'types' and any(
-                            x[0] == 'call' and x[1].endswith('read_toml_file') and LP.classify(x[2][0]) == ('TOML',) for x in walk(tv))
+                        src = toml_source(prog, sl, strip(tv[1])) if tv[0] == 'field' and tv[2] == 'types' else None
+                        good = src is not None and LP.classify(src[0]) == ('TOML',)
                         rep.check(good, 'R1', tag + '/types-preserved', e.where(), 'types <- existing file',
                                   'ReplaceMetadata does not preserve the existing types: ' + vstr(tv)[:120])
                         mv = strip(f.get('metadata', ('unknown',)))
@@ -398,6 +429,9 @@ def run(ctx, rep):
             subj = '%s/%s/%s@%s' % (entry.path.split('::')[-1], e.call.fn.path, e.call.name, cls_str(k))
             if lp.inside_layer(k):
                 rep.holds('R7', subj, e.where(), '%s on %s' % (e.kind, cls_str(k)))
+            elif e.path is not None and any(x == UNKNOWN_ELEM for x in walk(e.path)):
+                rep.unproven('R7', subj, e.where(), '%s on an element of a local collection that has elements added in place and is then '
+                             'modified in a way that cannot be followed (via %s): what it holds when it is iterated is unknown' % (e.kind, e.via()))
             else:
                 rep.violated('R7', subj, e.where(), '%s on a path that is not lexically inside this layer: %s (via %s)'
                              % (e.kind, vstr(e.path)[:160], e.via()))
